@@ -156,6 +156,9 @@ def parse_table_match(prog, pb):
     for byte in sorted(tab):
         variants, inners = set(), set()
         for rv in tab[byte]:
+            # `sub(body).map_err(|_| unrecognized())`: the error is replaced, the success value is what it was
+            while T.is_call(rv, r"Result::<T, E>::map_err$") and len(rv[2]) == 2:
+                rv = rv[2][0]
             agg = T.find(rv, lambda x: isinstance(x, tuple) and x[0] == "agg" and x[1] == "adt" and (x[2] or "").endswith("commands::Command"))
             if agg is not None and isinstance(rv, tuple) and rv[0] == "agg" and rv[3] == "Ok":
                 variants.add(agg[3])
